@@ -102,7 +102,7 @@ def qvality_reference(s, t):
 
 def plan(seed, tier):
     cases = []
-    n = 10 if tier == "quick" else 120
+    n = 10 if tier == "quick" else 400
     for alg in PEP_ALGS:
         m = n if alg != "qvality" else n
         for i in range(m):
@@ -111,7 +111,7 @@ def plan(seed, tier):
     for alg in Q_ALGS:
         for i in range(n):
             cases.append({"class": "q_" + alg, "alg": alg, "index": i, "reps": 12, "cost": 4})
-    for i in range(6 if tier == "quick" else 60):
+    for i in range(6 if tier == "quick" else 240):
         cases.append({"class": "files", "index": i, "cost": 8})
     cases.append({"class": "probe_qvality_bin", "cost": 1})
     return cases
